@@ -6,8 +6,9 @@ from visions.types.integer import Integer
 
 
 @Integer.register_relationship(Float, np.ndarray)
+@array_handle_nulls
 def float_is_integer(series: np.ndarray, state: dict) -> bool:
-    return np.all(np.mod(series[~np.isnan(series)], 1) == 0)
+    return bool(np.all(np.mod(series, 1) == 0))
 
 
 # TODO: The array_handle_nulls is actually removing nulls from the result. This is _far_ from ideal but there is no
